@@ -9,7 +9,9 @@ import (
 	"strings"
 
 	"verif/internal/kinds"
+	"verif/internal/load"
 	"verif/internal/report"
+	"verif/internal/small"
 )
 
 // Rules added in the fourth session (this file's init runs after props_zz3.go's).
@@ -185,5 +187,36 @@ func init() {
 	extendProp("C07", "stack-live: outside the generated Lex, every read of the scanner's call stack reads a slot below the top of the stack as it was when the function was entered, i.e. a state that a pending call() pushed (linear prover with a ghost term for the entry value of top; the writes of top/stack keep 0 <= top <= len(stack)). A return that finds nothing to return to (an unmatched closing brace, the typical syntax error inside a statement list) must not restore a stale slot left by an earlier interpolated string: the rest of the file would be scanned as string content and every later statement lost (seeds C07-4, C07-8).",
 		[]report.Floor{{Rule: "stack-live", What: "obligations", Min: 2}},
 		func(c *Ctx) { defer c.cleanup(); c.scanRun("stack-live") })
+	const na = "newline-action: each of the 161 transitions of the generated scanner that consume LF or CR records exactly one line start at p+1 (nothing for a CR before a LF), so the line table from which token, node and error lines are computed has one entry per line terminator"
+	naF := []report.Floor{{Rule: "newline-action", What: "consuming-edges", Min: 150}}
+	extendProp("C05", na+" (seed C05-10: the state after a backslash in a single-quoted string lost its newline transitions; every later node's line fields were one too small).", naF,
+		func(c *Ctx) { defer c.cleanup(); c.scanRun("newline-action") })
+	extendProp("C06", na+" (seed C06-12: every error reported after such a string carried a line one too small).", naF,
+		func(c *Ctx) { defer c.cleanup(); c.scanRun("newline-action") })
+	extendProp("C11", "buf-readonly: nothing in the parsing packages writes an element of a byte slice that is not local storage - two parses of inputs that share memory (the same file parsed twice, sub-slices of one buffer) then only read it, so they cannot race on it and the second parse sees the bytes the first saw (seed C11-10: a grammar action appended to a token's Value, which is a window of the caller's buffer).",
+		[]report.Floor{{Rule: "buf-readonly", What: "functions", Min: 400}},
+		func(c *Ctx) { c.ssaScan("buf-readonly") })
+	extendProp("C03", "newline-siblings: in every state of the scanner a blank and a tab take the same transitions and LF/CR are treated alike, so a valid program stays valid whichever of them separates its tokens (seed C03-10: a tab after `<?php` no longer completed the open tag). dispatch-shape: whatever receives the configuration in parser.Parse receives it after an omitted version was replaced by 7.4 (seed C03-11: the lexer was built first and kept a nil version, which panics on the first heredoc). linear: every right-hand-side token and node is placed exactly once in the tree the action returns - the tree PHP's grammar prescribes contains each operand once, in its role (seed C03-6: `$2[0]` instead of the last element of the link list).",
+		[]report.Floor{{Rule: "newline-siblings", What: "states", Min: 500}, {Rule: "dispatch-shape", What: "paths", Min: 3}, {Rule: "linear", What: "productions", Min: 1000}},
+		func(c *Ctx) {
+			defer c.cleanup()
+			c.scanRun("newline-siblings")
+			c.Fixture("mini", "dispatch-shape", false, func(p *load.Program, tb *kinds.Table) *report.RuleResult {
+				r := small.DispatchShapeIn(p, "pkg/parser", "pkg/version")
+				r.Merge(small.DispatchShapeIn(p, "pkg/badparser", "pkg/version"), "bad:")
+				r.Merge(small.DispatchShapeIn(p, "pkg/badparser2", "pkg/version"), "bad2:")
+				return r
+			})
+			if p, _, ok := c.RepoProgram(false); ok {
+				c.Add(small.DispatchShape(p))
+			}
+			c.flows_("linear")
+		})
+	extendProp("C14", "case-fold: in every state of the php machine upper- and lower-case letters take the same transitions, so the `namespace` keyword of a namespace-relative name is recognised however it is spelt and the name reaches the resolver as a NameRelative (seed C14-12: `NAMESPACE\\f()` scanned as an ordinary qualified name).",
+		[]report.Floor{{Rule: "case-fold", What: "states", Min: 400}},
+		func(c *Ctx) { defer c.cleanup(); c.scanRun("case-fold") })
+	extendProp("C08", "pool-typestate: the token pool never hands out one object twice; free-floating and ordinary tokens share the pool, so with an aliased slot the token that is overwritten depends on how many whitespace and comment tokens precede it (seed C08-6).",
+		[]report.Floor{{Rule: "pool-typestate", What: "pools", Min: 2}},
+		func(c *Ctx) { c.poolRule() })
 	properties["PO"] = &Property{Level: "other", Run: func(c *Ctx) { defer c.cleanup(); c.presenceOracle() }}
 }
